@@ -83,6 +83,26 @@ impl CKBProtocolHandler for SyncProtocol {
                     );
                     return;
                 }
+                // Only the header of a matched block is proven: the body has to be the one
+                // which that header commits to.
+                {
+                    let view = new_block.clone().into_view_without_reset_header();
+                    if view.transactions_root() != view.calc_transactions_root()
+                        || view.proposals_hash() != view.calc_proposals_hash()
+                        || view.extra_hash() != view.calc_extra_hash().extra_hash()
+                    {
+                        warn!(
+                            "SyncProtocol.received a block whose body doesn't match its header from Peer({})",
+                            peer
+                        );
+                        nc.ban_peer(
+                            peer,
+                            BAD_MESSAGE_BAN_TIME,
+                            String::from("send us a block whose body doesn't match its header"),
+                        );
+                        return;
+                    }
+                }
                 let mut matched_blocks = self.peers.matched_blocks().write().expect("poisoned");
                 self.peers.add_block(&mut matched_blocks, new_block);
 
